@@ -239,7 +239,7 @@ PROPS = {
     "C12": {
         "title": "Built functions appear exactly as built",
         "units": ["V4_inject", "V1_locals", "V6_api", "V7_types", "V11_emit"],
-        "obligations": ["V6_api.finish_module.*", "V6_api.fn:FunctionBuilder::finish_module_with_tag", "V6_api.add_local_func.*", "V6_api.fn:Module::add_local_func_with_tag",
+        "obligations": ["V6_api.finish_module.*", "V6_api.fn:FunctionBuilder::finish_module_with_tag", "V6_api.finish_component.*", "V6_api.fn:FunctionBuilder::finish_component_with_tag", "V6_api.add_local_func.*", "V6_api.fn:Module::add_local_func_with_tag",
                         "V6_api.Functions.add_local_func.*", "V6_api.fn:Functions::add_local_func", "V6_api.fn:LocalFunction::new", "V6_api.LocalFunction.*",
                         "V6_api.kf.convert_local_fn_to_import.keeps_function_space_well_formed",
                         "V7_types.add_func_type.*", "V7_types.fn:ModuleTypes::add_func_type", "V7_types.add_type.*", "V7_types.fn:ModuleTypes::add_type",
